@@ -99,6 +99,18 @@ uint64_t cmb_datasummary_merge(struct cmb_datasummary *tgt,
     cmb_assert_release(dsp2 != NULL);
     cmb_assert_release(dsp2->cookie == CMI_INITIALIZED);
 
+    /* The formulas below divide by the combined count; an empty summary
+     * contributes nothing, so the result is (a copy of) the other one. */
+    if (dsp2->count == 0u) {
+        *tgt = *dsp1;
+        return tgt->count;
+    }
+
+    if (dsp1->count == 0u) {
+        *tgt = *dsp2;
+        return tgt->count;
+    }
+
     struct cmb_datasummary cs = { 0 };
     cmb_datasummary_initialize(&cs);
     cs.count = dsp1->count + dsp2->count;
